@@ -191,6 +191,19 @@ def check_method(C, cls_label, cname, name, m, inst, md, viols, nested_cls):
             if snap.canon([inst]) != before:
                 viols.append(violation(PROP, S("unadvertised_keyword_changed_receiver"), {"keyword": u}, case(how="unadvertised", keyword=u)))
                 break
+            if "_if" in adv_names:
+                # ... also when the call is switched off: a keyword outside the signature is refused before anything else is looked at
+                for off in (False, 0):
+                    try:
+                        m(inst, **dict({r: None for r in required}, **{u: 1, "_if": off}))
+                        viols.append(violation(PROP, S("unadvertised_keyword_accepted", name="with_if_false"),
+                                               {"keyword": u, "_if": repr(off), "signature": str(sig)}, case(how="unadvertised_if_false", keyword=u)))
+                    except TypeError:
+                        pass
+                    except Exception as e:
+                        viols.append(violation(PROP, S("unadvertised_keyword_wrong_exception", error=type(e).__name__),
+                                               {"keyword": u, "error": repr(e)[:200]}, case(how="unadvertised_if_false", keyword=u)))
+                    n_checks += 1
     # (5b) real behaviour: explicit FALSY conforming values given to the constructor arrive as given
     if name == "__init__":
         cls = type(inst)
@@ -313,6 +326,17 @@ class PSub(PBase):
 class POver:
     level: int = 1
 
+@spec_class(key="code")
+class Warning:               # a user class that merely shares its NAME with a builtin
+    code: str
+    text: str = ""
+    def __post_init__(self):
+        self.seen_at_post_init = (getattr(self, "code", None), self.text)
+
+@spec_class(init_overflow_attr="options")
+class filter:                # likewise (and with an overflow attribute)
+    depth: int = 1
+
 @spec_class
 class Host2:
     base: PBase
@@ -322,6 +346,8 @@ class Host2:
     opts: POver
     flag: int = 0
     sw: bool = False
+    first_warning: Warning
+    flt: filter
 '''
 
 
@@ -351,6 +377,10 @@ EFFECT_OPS = {
     "with_opts_declared_kw": (lambda ns, h: h.with_opts(level=2), lambda r: _st(r.opts), (("extra", {}), ("level", 2))),
     "with_opts_overflow_kw": (lambda ns, h: h.with_opts(timeout=10), lambda r: _st(r.opts), (("extra", {"timeout": 10}), ("level", 1))),
     "with_opts_other_overflow_kw": (lambda ns, h: h.with_opts(retries=3, level=4), lambda r: _st(r.opts), (("extra", {"retries": 3}), ("level", 4))),
+    # nested classes named like builtins are ordinary constructors: keywords go through the constructor, not around it
+    "with_builtin_named_keyed_kw": (lambda ns, h: h.with_first_warning(code="W1", text="t"), lambda r: _st(r.first_warning),
+                                    (("code", "W1"), ("seen_at_post_init", ("W1", "t")), ("text", "t"))),
+    "with_builtin_named_overflow_kw": (lambda ns, h: h.with_flt(depth=2, mode="m"), lambda r: _st(r.flt), (("depth", 2), ("options", {"mode": "m"}))),
     # a keyword whose value EQUALS the current one but is not it (True == 1, 0 == False): it still has to arrive
     "update_flag_equal_other_type": (lambda ns, h: h.update(flag=False), lambda r: (type(r.flag).__name__, r.flag), ("bool", False)),
     "update_sw_equal_other_type": (lambda ns, h: h.update(sw=0), lambda r: ("raised-or-stored", type(r.sw).__name__), ("raised", "TypeError", "")),
